@@ -11,10 +11,15 @@ MUTATIONS = ["none", "none", "no_outer", "no_inner", "swap_outer_inner", "outer_
              "shared_in_inner", "exclusive_in_inner", "shared_outside_outer", "exclusive_outside_outer", "shared_scalar", "shared_runtime_size"]
 
 
+_cycle = [0]
+
+
 def program(rnd):
     d = p_C20.program(rnd)
     d["sibling"] = rnd.choice([None, None, "plain"])       # @tile siblings carry their own @outer/@inner: kept out of the attribute mutations
-    d["mut"] = rnd.choice(MUTATIONS)
+    # the rule to break cycles deterministically through the list (Hypothesis' Random is not uniform: some rules were starved)
+    d["mut"] = MUTATIONS[_cycle[0] % len(MUTATIONS)]
+    _cycle[0] += 1
     if d["mut"] == "unequal_nesting":
         d["NI1"] = max(d["NI1"], 2)
         if len(d["phases"]) < 2:
